@@ -153,8 +153,16 @@ def gammas(run):
             for np_, pr in ((False, "column"), (True, "first_row")):
                 for pbh in ((True,) if quick and hm == "none" else (True, False)):
                     out.append(({"strategy": "page_by", "L": 1, "nrow": nrow, "header": hm, "new_page": np_, "pageby_row": pr,
-                                 "pageby_header": pbh, "heights": [1, 2] if not quick else [1]}, 6 if not quick else 5, True))
+                                 "pageby_header": pbh, "heights": [1]}, 6 if not quick else 5, True))
+                    if not quick and pbh and hm == "explicit":  # wrapped rows: a shallower tree
+                        out.append(({"strategy": "page_by", "L": 1, "nrow": nrow, "header": hm, "new_page": np_, "pageby_row": pr,
+                                     "pageby_header": pbh, "heights": [1, 2]}, 5, True))
     out.append(({"strategy": "page_by", "L": 1, "nrow": 4, "header": "explicit", "new_page": True, "pageby_row": "column", "heights": [1]}, 5, False))
+    # integer group values (0 is falsy) and values that recur non-adjacently (A, B, A)
+    for nrow in ((5, 8, 12) if quick else (4, 5, 6, 8, 12, 16)):
+        # integer values; with recurrence the falsy value 0 also starts a group in the middle of a page
+        out.append(({"strategy": "page_by", "L": 1, "nrow": nrow, "header": "explicit", "numeric_groups": True, "recur": True, "heights": [1]}, 5, False))
+        out.append(({"strategy": "page_by", "L": 1, "nrow": nrow, "header": "explicit", "recur": True, "heights": [1]}, 5, False))
     for L, nrows, depth in ((2, (4, 6, 10) if quick else (4, 5, 6, 8, 12, 16), 4 if quick else 5), (3, (6, 12) if quick else (5, 6, 8, 14), 4)):
         for nrow in nrows:
             for hm in (("explicit",) if quick else ("none", "explicit")):
